@@ -91,7 +91,7 @@ def gen_cases(tier, seed):
         ntot = sum(bases.nfunc(s) for s in shells)
         T, tcls = bases.rand_transform(rng, ntot, ["none", "orth", "fewer", "more", "general", "none"][i % 6])
         norb = ntot if T is None else len(T)
-        dm, dcls = bases.rand_sym(rng, norb, ["psd", "indef", "psd-lowrank", "diag", "diag-indef", "psd", "blockdiag"][i % 7])
+        dm, dcls = bases.rand_sym(rng, norb, ["psd", "indef", "psd-lowrank", "diag", "diag-indef", "psd", "blockdiag", "hollow"][i % 8])
         # thresholds
         P, Nn = np.array(pts), np.array(nuc)
         d = np.sqrt(((P[:, None, :] - Nn[None, :, :]) ** 2).sum(axis=2))
